@@ -93,6 +93,8 @@ def rule_R1(text, args, fired):
         t = toks[i]
         if t.text == 'std' and i + 3 < len(toks) and toks[i+1].text == '::' and toks[i+2].text == 'io' and toks[i+3].text == '::':
             return (t.start, toks[i+3].end, 'vio::', i + 4)
+        if t.text == 'std' and i + 3 < len(toks) and toks[i+1].text == '::' and toks[i+2].text == 'env' and toks[i+3].text == '::':
+            return (t.start, toks[i+3].end, 'venv::', i + 4)
         if t.kind == 'id' and t.text in ('Read', 'Write') and i > 0 and toks[i-1].text in (':', '+') :
             return (t.start, t.end, 'V' + t.text, i + 1)
         if t.kind == 'id' and t.text in ('Read', 'Write') and i > 0 and toks[i-1].text == 'dyn':
